@@ -13,7 +13,7 @@ import time
 from . import core, ilv
 
 
-def judge_factory(h, part: core.Part, PB, TB, extra_case=None):
+def judge_factory(h, part: core.Part, PB, TB, extra_case=None, max_points=4000, horizon=50.0):
     def judge(x: ilv.Run):
         probs = list(h.check(x))
         if x.outcome == "deadlock":
@@ -25,17 +25,17 @@ def judge_factory(h, part: core.Part, PB, TB, extra_case=None):
                 probs.append((f"{h.sig}|thread-exception|{type(t.error).__name__}", f"exception escaped thread {t.name}: {t.error!r}"))
         key = (h.name, tuple(x.choices))
         outcome = h.outcome(x) if hasattr(h, "outcome") else x.outcome
-        nontrivial = x.switches > 0 and len([t for t in x.threads if t.harness]) > 2
+        nontrivial = h.nontrivial(x) if hasattr(h, "nontrivial") else (x.switches > 0 and len(x.threads) > 2)
         part.case(key, nontrivial, outcome=(h.name, outcome), sample=None)
         if probs:
             # confirm: the same schedule must fail identically twice before it is believed
-            x1 = ilv.execute(h, list(x.choices))
-            x2 = ilv.execute(h, list(x.choices))
+            x1 = ilv.execute(h, list(x.choices), max_points, horizon)
+            x2 = ilv.execute(h, list(x.choices), max_points, horizon)
             p1, p2 = list(h.check(x1)), list(h.check(x2))
             if x1.trace != x.trace or x2.trace != x.trace:
                 raise ilv.EngineError(f"non-deterministic replay of {h.name} {x.choices}")
             for sig, what in probs:
-                part.violation(sig, f"{h.name}: {what}", {"harness": h.name, "choices": list(x.choices), "PB": PB, "TB": TB},
+                part.violation(sig, f"{h.name}: {what}", {"harness": h.name, "choices": list(x.choices), "PB": PB, "TB": TB, "horizon": horizon, "max_points": max_points},
                                events=[list(map(str, e)) for e in x.events][:60], confirmed=bool(p1 or x1.outcome != "quiescent") and bool(p2 or x2.outcome != "quiescent"))
 
     return judge
@@ -49,7 +49,7 @@ def explore_all(part: core.Part, harnesses, shard, nshards, PB, TB, deadline, ma
         if time.time() > deadline:
             part.complete = False
             return
-        st, left = ilv.explore(h, PB, TB, judge_factory(h, part, PB, TB), deadline=deadline, max_points=max_points, horizon=horizon)
+        st, left = ilv.explore(h, PB, TB, judge_factory(h, part, PB, TB, None, max_points, horizon), deadline=deadline, max_points=max_points, horizon=horizon)
         if not st.complete:
             part.complete = False
         part.count("executions", st.executions)
@@ -75,7 +75,7 @@ def finish_cov(ctx: core.Ctx, agg: core.Part, extra_states: int = 0, extra_trans
 
 
 def replay_harness(h, case):
-    x = ilv.execute(h, list(case["choices"]))
+    x = ilv.execute(h, list(case["choices"]), case.get("max_points", 4000), case.get("horizon", 50.0))
     print("outcome:", x.outcome, "choices:", x.choices)
     for e in x.events:
         print("  ", e)
